@@ -21,6 +21,22 @@ func init() {
 	for _, p := range []string{"C01", "C02", "C03", "C10", "C13", "C15", "C18"} {
 		engines[p] = engine{genSeqPlan, runSeq}
 	}
+	// C13: one world in five is concurrent (clients setting and reading keys of one hash group
+	// while collisions are being discovered), see genConcPlan
+	engines["C13"] = engine{
+		gen: func(prop string, seed uint64, tier string) *Plan {
+			if seed%5 == 0 {
+				return genConcPlan(prop, seed, tier)
+			}
+			return genSeqPlan(prop, seed, tier)
+		},
+		run: func(p *Plan, tape *simrt.Tape) *Outcome {
+			if p.Extra["env"] == 1 {
+				return runConc(p, tape)
+			}
+			return runSeq(p, tape)
+		},
+	}
 }
 
 // ReplayFile is what a violation is reported as: the plan, the tapes, and the violation.
